@@ -323,6 +323,99 @@ def case_line3(ctx, cfg):
 
 
 # ---------------------------------------------------------------------------------------------------
+# perpendicular(through, plane=E) for a point ON a 3D line: the optional argument selects which of the perpendiculars
+# through the point is meant. Every line x every lattice plane through it x three points of the line; as single objects,
+# with the points as a collection, and with lines / planes / points all as collections (mixed with points off the line).
+
+
+def enum_perp_in_plane(tier, seed):
+    lat = [v for v in lattice(3, 1)]
+    dirs = [v for v in lat if next(x for x in v if x) > 0] + (list(NEAR_DIRS3[:2]) if tier == "thorough" else [])
+    for u in [(0, 0, 0), (1, 0, -1), (-1, 1, 1)] + ([(2, -2, 1)] if tier == "thorough" else []):
+        for w in dirs:
+            yield (u, w)
+
+
+@family("C10", "line3d_perpendicular_in_plane", enum_perp_in_plane)
+def case_perp_in_plane(ctx, cfg):
+    import geometer as G
+
+    u, w = cfg
+    ww = sum(x * x for x in w)
+    L = G.Line(G.Point(*u), G.Point(np.array(list(w) + [0], dtype=float)))
+    normals = []
+    for v in lattice(3, 1):
+        n_ = tuple(int(x) for x in np.cross(w, v))
+        if any(n_) and next(x for x in n_ if x) > 0 and not any(np.array_equal(np.cross(n_, m), (0, 0, 0)) for m in normals):
+            normals.append(n_)
+    ks = (-1, 0, 2)
+
+    def judge(arr, p, n_, tag, inputs):
+        d = line_direction(arr)
+        nd = np.linalg.norm(d[:3])
+        ok = (
+            abs(d[3]) <= 1e-9 * max(nd, 1e-300) and nd > 1e-9 * np.linalg.norm(arr)
+            and on_line3(arr, fl(list(p) + [1]))
+            and abs(np.dot(d[:3], fl(w))) <= 1e-7 * nd * math.sqrt(ww)
+            and abs(np.dot(d[:3], fl(n_))) <= 1e-7 * nd * np.linalg.norm(n_)
+        )
+        if not ok:
+            ctx.fail(f"line3d:perpendicular-in-plane:{tag}", "perpendicular(p, plane=E)", inputs, "the line through p inside E perpendicular to s", arr)
+        return ok
+
+    for n_ in normals:
+        E = G.Plane(np.array(list(n_) + [-sum(a * b for a, b in zip(n_, u))], dtype=float))
+        pts = [tuple(a + k * b for a, b in zip(u, w)) for k in ks]
+        for k, p in zip(ks, pts):
+            ctx.state((u, w, n_, k))
+            inputs = {"line_point": u, "line_direction": w, "plane_normal": n_, "p": p}
+            for rep, sc in (("plain", 1), ("scaled", -2)):
+                r, e = ctx.call(lambda: L.perpendicular(G.Point(np.array(list(p) + [1], dtype=float) * sc), plane=G.Plane(E.array * sc)))
+                ctx.trace()
+                if e is not None or type(r) is not G.Line:
+                    ctx.fail(f"line3d:perpendicular-in-plane:{rep}:{type(e).__name__ if e is not None else 'type'}", "perpendicular(p, plane=E)", inputs, "line", e if e is not None else type(r).__name__)
+                    return
+                if not judge(r.array, p, n_, rep, inputs):
+                    return
+        # the three points as a collection, one plane
+        PC = G.PointCollection(np.array([list(p) + [1] for p in pts], dtype=float))
+        r, e = ctx.call(lambda: L.perpendicular(PC, plane=E))
+        ctx.trace(len(pts))
+        if e is not None or r.array.shape != (len(pts), 4, 4):
+            ctx.fail(f"line3d:perpendicular-in-plane:points-collection:{type(e).__name__ if e is not None else 'shape'}", "perpendicular(P, plane=E)", {"line_point": u, "line_direction": w, "plane_normal": n_}, "collection", e if e is not None else list(r.array.shape))
+            return
+        for i, p in enumerate(pts):
+            if not judge(r.array[i], p, n_, "points-collection", {"line_point": u, "line_direction": w, "plane_normal": n_, "p": p, "position": i}):
+                return
+    # everything as collections: position i pairs the line with plane i and point i; odd positions get a point OFF the line
+    # (there the plane is irrelevant and the perpendicular is the one through the foot)
+    k = len(normals)
+    LC = G.LineCollection(np.array([L.array] * k))
+    EC = G.PlaneCollection(np.array([list(n_) + [-sum(a * b for a, b in zip(n_, u))] for n_ in normals], dtype=float))
+    qs = []
+    for i, n_ in enumerate(normals):
+        base = [a + (i - 1) * b for a, b in zip(u, w)]
+        qs.append(tuple(base) if i % 2 == 0 else tuple(a + b for a, b in zip(base, n_)))
+    QC = G.PointCollection(np.array([list(q) + [1] for q in qs], dtype=float))
+    r, e = ctx.call(lambda: LC.perpendicular(QC, plane=EC))
+    ctx.trace(k)
+    inputs = {"line_point": u, "line_direction": w, "plane_normals": normals, "points": qs}
+    if e is not None or r.array.shape != (k, 4, 4):
+        ctx.fail(f"line3d:perpendicular-in-plane:all-collections:{type(e).__name__ if e is not None else 'shape'}", "LC.perpendicular(PC, plane=EC)", inputs, "collection", e if e is not None else list(r.array.shape))
+        return
+    for i, (n_, q) in enumerate(zip(normals, qs)):
+        if i % 2 == 0:
+            if not judge(r.array[i], q, n_, "all-collections:on", {**inputs, "position": i}):
+                return
+        else:
+            d = line_direction(r.array[i])
+            foot = [a - b for a, b in zip(q, n_)]
+            if not (on_line3(r.array[i], fl(list(q) + [1])) and on_line3(r.array[i], fl(foot + [1])) and abs(np.dot(d[:3], fl(w))) <= 1e-7 * np.linalg.norm(d) * math.sqrt(ww)):
+                ctx.fail("line3d:perpendicular-in-plane:all-collections:off", "LC.perpendicular(PC, plane=EC)", {**inputs, "position": i}, "perpendicular through q and its foot", r.array[i])
+                return
+
+
+# ---------------------------------------------------------------------------------------------------
 # predicates
 
 
@@ -866,3 +959,90 @@ def case_props(ctx, cfg):
 
 def _derived_ok(ctx, G, L2, hh, tag):
     return check_line2d_props(ctx, G, L2, hh, tag)
+
+
+# ---------------------------------------------------------------------------------------------------
+# The optional `tol` of Subspace.contains and is_collinear / is_coplanar / is_concurrent is the acceptance threshold for the
+# incidence value / the determinant. Lattice objects in dyadic representatives give exact values; a ladder of tolerances is
+# judged except within a factor 2 of the exact value (margin rule).
+
+TOLS10 = (None, 2.0 ** -30, 2.0 ** -12, 2.0 ** -4, 3.0)
+
+
+def enum_tol10(tier, seed):
+    for kind in ("line2.contains", "plane.contains", "is_collinear", "is_concurrent", "is_coplanar"):
+        for s in (0, -5, -10) if tier == "quick" else (0, -3, -5, -8, -10, -13):
+            for form in ("single", "collection") + (("single_extra", "collection_extra") if kind.startswith("is_") else ()):
+                yield (kind, s, form)
+
+
+@family("C10", "explicit_tolerance", enum_tol10)
+def case_tol10(ctx, cfg):
+    import geometer as G
+
+    kind, s, form = cfg
+    sc = 2.0 ** s
+    ctx.state(cfg)
+    if kind in ("line2.contains", "plane.contains"):
+        n = 3 if kind == "line2.contains" else 4
+        hs = [np.array(h, dtype=float) for h in ([(1, 2, -1), (0, 1, 0), (2, -1, 2)] if n == 3 else [(1, 0, 2, -1), (0, 0, 1, 0), (1, 1, 1, -2)])]
+        pts = [np.array(v, dtype=float) * sc for v in lattice(n, 1)]
+        for h in hs:
+            S = G.Line(h) if n == 3 else G.Plane(h)
+            vals = [float(h @ p) for p in pts]
+            for tol in TOLS10:
+                kw = {} if tol is None else {"tol": tol}
+                if form == "single":
+                    out = [ctx.call(lambda: S.contains(G.Point(p), **kw)) for p in pts]
+                    e = next((x[1] for x in out if x[1] is not None), None)
+                    got = None if e is not None else [bool(x[0]) for x in out]
+                else:
+                    r, e = ctx.call(lambda: S.contains(G.PointCollection(np.array(pts)), **kw))
+                    got = None if e is not None else [bool(x) for x in np.atleast_1d(r)]
+                ctx.trace(len(pts))
+                if e is not None or len(got) != len(pts):
+                    ctx.fail(f"tol:{kind}:raises", "contains", {"subspace": h, "tol": tol, "form": form}, "bools", e if e is not None else got)
+                    return
+                if not judge_tol(ctx, kind, form, tol, vals, got, lambda i: {"subspace": h, "p": pts[i]}):
+                    return
+        return
+    n = 3 if kind in ("is_collinear", "is_concurrent") else 4
+    fn = {"is_collinear": G.is_collinear, "is_concurrent": G.is_concurrent, "is_coplanar": G.is_coplanar}[kind]
+    mk = (lambda a: G.Line(a)) if kind == "is_concurrent" else (lambda a: G.Point(a))
+    mkc = (lambda a: G.LineCollection(a)) if kind == "is_concurrent" else (lambda a: G.PointCollection(a))
+    fixed = [np.array(v, dtype=float) for v in ([(1, 0, 1), (0, 1, 1)] if n == 3 else [(1, 0, 0, 1), (0, 1, 0, 1), (0, 0, 1, 1)])]
+    last = [np.array(v, dtype=float) * sc for v in lattice(n, 1)]
+    vals = [float(np.linalg.det(np.array(fixed + [x]))) for x in last]
+    vals = [round(v / sc) * sc for v in vals]  # integer determinant times the dyadic factor: exact
+    # "_extra": one more argument on the span of the fixed ones in front of the varying one, so that the varying object is
+    # judged by the loop over the arguments beyond the first n (value: the same determinant)
+    head = fixed + ([np.sum(fixed, axis=0)] if form.endswith("_extra") else [])
+    for tol in TOLS10:
+        kw = {} if tol is None else {"tol": tol}
+        if form.startswith("single"):
+            out = [ctx.call(lambda: fn(*[mk(a) for a in head], mk(x), **kw)) for x in last]
+            e = next((x[1] for x in out if x[1] is not None), None)
+            got = None if e is not None else [bool(x[0]) for x in out]
+        else:
+            r, e = ctx.call(lambda: fn(*[mk(a) for a in head], mkc(np.array(last)), **kw))
+            got = None if e is not None else [bool(x) for x in np.atleast_1d(r)]
+        ctx.trace(len(last))
+        if e is not None or len(got) != len(last):
+            ctx.fail(f"tol:{kind}:raises", kind, {"tol": tol, "form": form}, "bools", e if e is not None else got)
+            return
+        if not judge_tol(ctx, kind, form, tol, vals, got, lambda i: {"fixed": fixed, "last": last[i]}):
+            return
+
+
+def judge_tol(ctx, kind, form, tol, vals, got, describe):
+    t_eff = 1e-8 if tol is None else tol
+    for i, (v, g) in enumerate(zip(vals, got)):
+        if v != 0 and t_eff / 2 < abs(v) < t_eff * 2:
+            ctx.skipped += 1
+            continue
+        want = abs(v) <= t_eff
+        ctx.tally(f"{'inside' if want else 'outside'}-tolerance")
+        if g != want:
+            ctx.fail(f"tol:{kind}:{form}:{'default' if tol is None else 'explicit'}", kind, {**describe(i), "tol": tol, "value": v}, want, g)
+            return False
+    return True
